@@ -15,7 +15,7 @@ Theorem C07_price_is_df_mean :
     std_engine payoff path df notional n init = map (std_row payoff path df notional) (seq 0 n)
     /\ nth j (std_price d (std_engine payoff path df notional n init)) 0
        == df * notional * mean (map (fun i => nth j (payoff (path i)) 0) (seq 0 n)).
-Proof. intros. split; [now apply engine_rows|now apply price_is_df_mean]. Qed.
+Proof. exact price_is_df_mean_full. Qed.
 
 (* mc_stddev()^2, component j = unbiased sample variance of column j divided by the number of paths n
    (n >= 2; for n = 1 the code returns [0.0]) *)
@@ -24,14 +24,14 @@ Theorem C07_error_per_component :
     length (mc_var_repaired d rows) = d /\
     nth j (mc_var_repaired d rows) 0
     == (Qsum (map sq (column j rows)) - qlen rows * sq (mean (column j rows))) / (qlen rows - 1) / qlen rows.
-Proof. intros. split; [apply mc_var_length|now apply error_per_component]. Qed.
+Proof. exact error_per_component_full. Qed.
 
 (* mean(Y - b.(X - price)) = mean Y - b.(mean X - price) for ANY b; equal to mean Y when mean X = price *)
 Theorem C07_cv_mean :
   forall n, (0 < n)%nat -> forall b p X Y,
     En n (cv_adj b p X Y) == En n Y - dotf b (fun k => En n (X k) - p k) 0
     /\ ((forall k, En n (X k) == p k) -> En n (cv_adj b p X Y) == En n Y).
-Proof. intros n Hn b p X Y. split; [now apply cv_mean|now apply cv_mean_unbiased]. Qed.
+Proof. exact cv_mean_full. Qed.
 
 (* any number of controls: if b solves the normal equations Sigma_X b = Sigma_XY (what inv(Sigma_X) @ Sigma_XY
    is specified to return), var(adj) = var Y - var(b.X) <= var Y; the fall-back b = 0 leaves Y unchanged;
@@ -41,7 +41,7 @@ Theorem C07_cv_variance :
     Cn n (cv_adj b p X Y) (cv_adj b p X Y) == Cn n Y Y - Cn n (Zlin b X) (Zlin b X)
     /\ 0 <= Cn n (Zlin b X) (Zlin b X)
     /\ Cn n (cv_adj b p X Y) (cv_adj b p X Y) <= Cn n Y Y.
-Proof. intros n Hn b p X Y. now apply cv_variance. Qed.
+Proof. exact cv_variance. Qed.
 Theorem C07_cv_fallback_is_raw : forall nc p X Y i, cv_adj (repeat 0 nc) p X Y i == Y i.
 Proof. exact cv_adj_zero. Qed.
 Theorem C07_cv_bstar_solves_normal_equations :
@@ -50,7 +50,7 @@ Theorem C07_cv_bstar_solves_normal_equations :
     /\ (let a := Cn n (X 0%nat) (X 0%nat) in let c := Cn n (X 0%nat) (X 1%nat) in let d := Cn n (X 1%nat) (X 1%nat) in
         Qltb (Qminb (Qabs a) (Qminb (Qabs c) (Qabs d))) cv_eps = false -> ~ a * d - c * c == 0 ->
         normal_eq n (b_star n 2 X Y) X Y).
-Proof. intros n X Y Hn. split; [now apply b_star_1_normal|now apply b_star_2_normal]. Qed.
+Proof. exact b_star_normal. Qed.
 
 (* non-vacuity / behaviour before the repair of mc_stddev (F-C07-1): two paths, two components *)
 Example C07_error_vector_before_repair :
